@@ -64,6 +64,15 @@ class StubIO:
             return self.lines[self.i - 1]
         return ""
 
+    def __iter__(self):
+        return self
+
+    def __next__(self):
+        line = self.readline()
+        if line == "":
+            raise StopIteration
+        return line
+
     def close(self):
         pass
 
@@ -87,3 +96,39 @@ def scanner_numbers_lines(a: str, b: str, n: int, extra: int) -> bool:
         if not t.eof() or t.location != {"line": n + 1 + j}:
             return False
     return True
+
+
+def _ref_lines(text):
+    """physical lines: a line ends at a line feed and nowhere else"""
+    out = []
+    cur = ""
+    for ch in text:
+        cur += ch
+        if ch == "\n":
+            out.append(cur)
+            cur = ""
+    if cur != "":
+        out.append(cur)
+    return out
+
+
+def scan_text(text: str) -> bool:
+    """
+    pre: len(text) <= sym.param("maxlen", 4)
+    post: _
+    """
+    # the REAL TokenScanner on a symbolic source text (io.StringIO / os.path.exists replaced by their documented contracts)
+    with sym.scanner_env(False):
+        sc = TokenScanner(text)
+        lines = _ref_lines(text)
+        for i, l in enumerate(lines):
+            t = sc.read()
+            if t.eof() or t.location != {"line": i + 1} or t.line._line_text != l:
+                return False
+        for j in range(2):
+            t = sc.read()
+            if not t.eof() or t.location != {"line": len(lines) + 1 + j}:
+                return False
+        if len(lines) >= 2:
+            sym.reach("two-lines")
+        return True
